@@ -165,3 +165,172 @@ Proof.
     try exact HI; try (inv1_upd HI; fail).
   all: try (eapply regs_map_ok; [exact HI | intros x0 H0; eapply reg_ok_wake; exact H0]).
 Qed.
+
+Lemma qstep_cases s l s' :
+  qstep s l = Some s' -> (l = LQuiesce /\ s' = s) \/ step s l = Some s'.
+Proof.
+  destruct l; simpl; auto. destruct (quiescent s); [|discriminate]. intros H; inversion H; auto.
+Qed.
+
+Lemma Inv1_qstep s l s' : Inv1 s -> qstep s l = Some s' -> Inv1 s'.
+Proof.
+  intros HI Hq. destruct (qstep_cases _ _ _ Hq) as [(_ & ->)|Hs]; [exact HI | eapply Inv1_step; eauto].
+Qed.
+
+(* ------------------------------------------------------------------ *)
+(* sums over the thread lists                                          *)
+(* ------------------------------------------------------------------ *)
+
+Section Sum.
+  Context {A : Type}.
+  Fixpoint suml (m : A -> nat) (l : list A) : nat :=
+    match l with [] => 0 | x :: t => m x + suml m t end.
+
+  Lemma suml_upd m l n x y : nth_error l n = Some y -> suml m (upd l n x) + m y = suml m l + m x.
+  Proof.
+    revert n; induction l as [|h t IH]; intros [|n] H; simpl in *; try discriminate.
+    - inversion H; subst. lia.
+    - specialize (IH n H). lia.
+  Qed.
+
+  Lemma suml_map m f l : (forall x, m (f x) = m x) -> suml m (map f l) = suml m l.
+  Proof. intros H. induction l as [|h t IH]; simpl; [reflexivity | rewrite H, IH; reflexivity]. Qed.
+
+  Lemma suml_le m l n x : nth_error l n = Some x -> m x <= suml m l.
+  Proof.
+    revert n; induction l as [|h t IH]; intros [|n] H; simpl in *; try discriminate.
+    - inversion H; subst. lia.
+    - specialize (IH n H). lia.
+  Qed.
+End Sum.
+
+(* ------------------------------------------------------------------ *)
+(* Inv2: RWMutex, WaitGroup, stopped flag, barrier                     *)
+(* ------------------------------------------------------------------ *)
+
+(* registration pcs inside spawn's read-locked section *)
+Definition holds_r (p : rpc) : bool :=
+  match p with RLocked | RCheckOk | RNoSpawn | RAdded => true | _ => false end.
+Definition mr (x : reg) : nat := b2n (holds_r (r_rpc x)).
+
+(* a goroutine that exists and has not yet called wg.Done *)
+Definition g_live (g : gpc) : bool := match g with GNone | GExited => false | _ => true end.
+
+(* what a registration contributes to the WaitGroup counter: 1 between wg.Add and the go statement,
+   and 1 while its goroutine is alive *)
+Definition contrib (x : reg) : nat :=
+  match r_rpc x with RAdded | RUnlocked => 1 | _ => b2n (g_live (r_gpc x)) end.
+
+Definition holds_w (p : spc) : bool := match p with SLocked | SCancelled => true | _ => false end.
+Definition mw (y : stopper) : nat := b2n (holds_w (s_pc y)).
+Definition past_cancel (p : spc) : bool :=
+  match p with SCancelled | SUnlocked | SWaited | SRet => true | _ => false end.
+(* a StopAndWait whose wg.Wait has returned *)
+Definition waited (y : stopper) : bool :=
+  s_wait y && match s_pc y with SWaited | SRet => true | _ => false end.
+
+Record Inv2 (s : st) : Prop := mkInv2 {
+  i_readers : readers s = suml mr (regs s);
+  i_writer : b2n (writer s) = suml mw (stops s);
+  i_excl : writer s = true -> readers s = 0;
+  i_wg : wg s = suml contrib (regs s);
+  i_stopctx : stopped s = true -> ctxd s = true;
+  i_nocheck : stopped s = true -> forall r x, nth_error (regs s) r = Some x -> r_rpc x <> RCheckOk;
+  i_past : forall k y, nth_error (stops s) k = Some y -> past_cancel (s_pc y) = true -> stopped s = true;
+  i_wait : forall k y, nth_error (stops s) k = Some y -> waited y = true -> wg s = 0
+}.
+
+Lemma Inv2_init c : Inv2 (init c).
+Proof.
+  unfold init. constructor; simpl; try discriminate.
+  - induction (c_regs c) as [|[[k fc] o] t IH]; simpl; auto.
+  - induction (c_stops c) as [|w t IH]; simpl; auto.
+  - induction (c_regs c) as [|[[k fc] o] t IH]; simpl; auto.
+  - intros k y Hy. rewrite nth_map in Hy. destruct (nth_error (c_stops c) k); [|discriminate].
+    simpl in Hy. inversion Hy; subst y. simpl. discriminate.
+  - intros k y Hy. rewrite nth_map in Hy. destruct (nth_error (c_stops c) k); [|discriminate].
+    simpl in Hy. inversion Hy; subst y. unfold waited; simpl. rewrite andb_false_r. discriminate.
+Qed.
+
+(* a registration changes without touching the lock / counter accounting *)
+Lemma Inv2_setr s r x x' :
+  Inv2 s -> getr s r = Some x ->
+  mr x' = mr x -> contrib x' = contrib x ->
+  (r_rpc x' = RCheckOk -> r_rpc x = RCheckOk \/ stopped s = false) ->
+  Inv2 (setr s r x').
+Proof.
+  intros [H1 H2 H3 H4 H5 H6 H7 H8] Hx Hm Hc Hk. unfold getr in Hx.
+  constructor; simpl; auto.
+  - pose proof (suml_upd mr _ _ x' _ Hx). lia.
+  - pose proof (suml_upd contrib _ _ x' _ Hx). lia.
+  - intros Hst i z Hz. destruct (nth_upd_inv _ _ _ _ _ Hz) as [[-> ->]|[_ Hz']].
+    + intros Hc'. destruct (Hk Hc') as [Hk'|Hk']; [exact (H6 Hst _ _ Hx Hk') | congruence].
+    + exact (H6 Hst _ _ Hz').
+Qed.
+
+(* trigger-call threads are irrelevant for Inv2 *)
+Lemma Inv2_sett s t y : Inv2 s -> Inv2 (sett s t y).
+Proof. intros [H1 H2 H3 H4 H5 H6 H7 H8]. constructor; simpl; auto. Qed.
+
+Lemma Inv2_gate s r x o p : Inv2 s -> getr s r = Some x -> Inv2 (setr s r (r_gate x o p)).
+Proof. intros HI Hx. eapply Inv2_setr; eauto. Qed.
+
+(* a stopper moves between pcs that neither hold the write lock nor are past the cancel *)
+Lemma Inv2_sets s k y y' :
+  Inv2 s -> gets s k = Some y ->
+  mw y' = mw y ->
+  (past_cancel (s_pc y') = true -> stopped s = true) ->
+  (waited y' = true -> wg s = 0) ->
+  Inv2 (sets s k y').
+Proof.
+  intros [H1 H2 H3 H4 H5 H6 H7 H8] Hy Hm Hp Hw. unfold gets in Hy.
+  constructor; simpl; auto.
+  - pose proof (suml_upd mw _ _ y' _ Hy). lia.
+  - intros i z Hz Hpz. destruct (nth_upd_inv _ _ _ _ _ Hz) as [[-> ->]|[_ Hz']]; [auto | eapply H7; eauto].
+  - intros i z Hz Hwz. destruct (nth_upd_inv _ _ _ _ _ Hz) as [[-> ->]|[_ Hz']]; [auto | eapply H8; eauto].
+Qed.
+
+Lemma wake_mr x : mr (wake_ctx x) = mr x.
+Proof. unfold wake_ctx, mr. destruct (r_gpc x); reflexivity. Qed.
+Lemma wake_contrib x : contrib (wake_ctx x) = contrib x.
+Proof. unfold wake_ctx, contrib. destruct (r_gpc x) eqn:E; simpl; rewrite ?E; reflexivity. Qed.
+Lemma wake_rpc x : r_rpc (wake_ctx x) = r_rpc x.
+Proof. unfold wake_ctx. destruct (r_gpc x); reflexivity. Qed.
+
+Lemma suml_zero_nth {A} (m : A -> nat) l : suml m l = 0 -> forall i x, nth_error l i = Some x -> m x = 0.
+Proof. intros H i x Hx. pose proof (suml_le m l i x Hx). lia. Qed.
+
+Lemma waited_stopped s k y : Inv2 s -> nth_error (stops s) k = Some y -> waited y = true -> stopped s = true.
+Proof.
+  intros HI Hy Hw. eapply (i_past s HI); eauto. unfold waited in Hw.
+  apply andb_true_iff in Hw. destruct Hw as [_ Hw]. destruct (s_pc y); simpl; auto; discriminate.
+Qed.
+
+Ltac use_reg_ok HI1 Hx :=
+  let H := fresh "Hok" in
+  pose proof (HI1 _ _ Hx) as H; destruct H as (H & _ & _); unfold reg_okb in H.
+
+Ltac simp_reg :=
+  unfold mr, contrib; simpl;
+  repeat match goal with
+         | E : r_rpc _ = _ |- _ => rewrite E
+         | E : r_gpc _ = _ |- _ => rewrite E
+         end; simpl;
+  repeat match goal with
+         | |- context [first_pc ?k] => destruct k
+         | |- context [after_f ?k] => destruct k
+         | |- context [after_trig ?k] => destruct k
+         | |- context [if ?b then _ else _] => destruct b
+         | |- context [match r_rpc ?x with _ => _ end] => destruct (r_rpc x)
+         end; simpl; try reflexivity; try congruence; auto.
+
+Lemma Inv2_step s l s' : Inv1 s -> Inv2 s -> step s l = Some s' -> Inv2 s'.
+Proof.
+  intros HI1 HI Hs. unfold step in Hs.
+  destruct l; dstep Hs; try discriminate Hs; injection Hs as Hs; subst s'.
+  all: try exact HI.
+  all: try (apply Inv2_sett).
+  all: try exact HI.
+  all: try (eapply Inv2_setr; [exact HI | eassumption | simp_reg | simp_reg | simp_reg]; fail).
+  all: try (eapply Inv2_gate; eauto; fail).
+Admitted.
